@@ -930,6 +930,33 @@ pub fn units() -> Vec<Unit> {
             Fn("Mac::rx_windows"),
         ],
     },
+    // ---- builder V (tie A for the channel selection, C09)
+    // `DynamicChannelPlan::select_tx_channel` with `get_random_in_range` and the "never spin" fallback.  The RNG is
+    // abstract (`RngOps`: `next_u32` of a state), the redraw loops run on a fuel (`Rt.loopM`: `none` when it is used up).
+    Unit {
+        module: "Gen.PlanSelectFn",
+        file: "lorawan-device/src/region/dynamic_channel_plans/mod.rs",
+        more_files: vec!["lorawan-device/src/region/mod.rs", "lorawan-device/src/region/constants.rs", "lorawan-device/src/mac/mod.rs", "lorawan-encoding/src/types.rs"],
+        imports: vec!["LoraVerif.Gen.Region", "LoraVerif.Gen.ChannelMaskFn"],
+        items: vec![
+            ExternUnit("Gen.Region"),
+            ExternUnit("Gen.ChannelMaskFn"),
+            Enum("Frame"),
+            Newtype("DataRateRange"),
+            Struct("Channel"),
+            Fn("Channel::rx1_frequency"),
+            Fn("Channel::ul_frequency"),
+            StructPartial("DynamicChannelPlan", &["channels", "channel_mask"]),
+            Raw(PLAN_SELECT_RAW),
+            ExternStructRaw("RNG", &[]),
+            ExternConst("R::NUM_JOIN_CHANNELS", "u8", "R.NUM_JOIN_CHANNELS"),
+            ExternFn("R::datarates", "R.datarates", &[], "[Option<Datarate>]"),
+            ExternFnX("RNG::next_u32", "RngCore.next_u32", &[("self", "RNG")], "u32", &["self"], false),
+            Struct("TxChannel"),
+            Fn("DynamicChannelPlan::get_random_in_range"),
+            TraitFn("RegionHandler", "DynamicChannelPlan", "select_tx_channel"),
+        ],
+    },
     ]
 }
 
@@ -1255,4 +1282,20 @@ class RegionOps (ρ : Type) where
   rx1_dr_offset_validate : ρ → Int → Option Int
   get_datarate : ρ → Int → Option Datarate
 variable {RegionCfg : Type} [RegionOps RegionCfg]
+"#;
+
+/// Lean text of the abstract part of `Gen.PlanSelectFn` (builder V)
+const PLAN_SELECT_RAW: &str = r#"/-- what `select_tx_channel` reads of the plan's region type `R: DynamicChannelRegion` -/
+structure DynRegion where
+  NUM_JOIN_CHANNELS : Int
+  datarates : List (Option Datarate)
+variable (R : DynRegion)
+/-- the random generator `RNG: RngCore`: `next_u32` on a generator state of any type -/
+class RngCore (RNG : Type) where
+  next_u32 : RNG → Int × RNG
+variable {RNG : Type} [RngCore RNG]
+/-- how many steps a redraw loop may take before the translation answers `none` -/
+class LoopFuel where
+  fuel : Nat
+variable [LoopFuel]
 "#;
